@@ -1,8 +1,25 @@
 // C18 — WebTransport serves a valid, advertised certificate at all times; dialers pin it.
+//
+// Three monitors over the REAL code (certManager, verifyRawCerts, the transport's Dial):
+//
+//   manager_test.go   the cert manager on a mock clock, stepped over a grid that is dense around every
+//                     instant at which anything changes (timeline_test.go makes each step deterministic):
+//                     validity/lifetime of the served certificate, advertised hashes (address component
+//                     and Noise early data) now and retrospectively, determinism against a manager
+//                     started fresh at the same instant, independent integer bucket arithmetic.
+//   verify_test.go    the dialer's verifier on crypto/x509-generated certificates with ground-truth
+//                     labels (key/signature algorithm, lifetime, validity window around the real now),
+//                     hash lists (exact, absent, other multihash code, empty) and chains (empty, of two).
+//   dial_test.go      the real transport dialing over loopback UDP against a scripted server whose
+//                     certificate chain and confirmed hashes are ground truth, and against the real
+//                     listener.
 package c18
 
 import (
+	"os"
+	"sync"
 	"testing"
+	"time"
 
 	"verif/harness/rig/run"
 )
@@ -10,5 +27,69 @@ import (
 func TestC18(t *testing.T) {
 	r := run.New(t, "C18", "exploration")
 	defer r.Finish()
-	managerCases(r)
+	r.Rule("manager: one case = (host key, start instant at a boundary of its bucket ± {0,1ms,1s,1h}, 0-6 rollovers, restarts) stepped on a boundary-dense grid with the real certManager on a mock clock, every instant compared with a manager started fresh at that instant; non-trivial if at least one rollover or restart was observed. " +
+		"verifier: one case = (certificate kind, validity window, hash list | chain shape) judged by the real verifyRawCerts; non-trivial if the certificate was pinned and the verdict hinged on a validity rule, or it was accepted. " +
+		"dial: one case = (served chain, confirmed hashes, dialed hashes) dialed by the real transport over loopback; non-trivial if the dial completed where allowed or was refused where forbidden. distinct = distinct case ids")
+	r.Assume(
+		"crypto/tls authenticates the server with rawCerts[0] (the handshake signature is checked against the first certificate); crypto/x509, crypto/tls, quic-go, webtransport-go and the Noise primitives are trusted",
+		"'at every instant' is decided on a grid: every instant at which a certificate starts/stops being servable or valid ± {0, 1 ms, 1 s, 1 h} (thorough and one trace per key in quick also ± {1 ns, 1 µs}), plus random instants; bucket indices 30..5800 (years 1971-2190)",
+		"'every hash the dialer relied on' = every certhash component of the dialed address (the verifier accepts a match with any of them; transport.go upgrade() requires all of them in the server's early data)",
+		"the clock-skew allowance is read from the code (1 h); the 14-day limit is the statement's",
+		"narrow reading of 'an address keeps verifying through the following period': the certificate pin check. That a manager RESTARTED in the following period no longer confirms the previous period's hash in its early data (lastConfig is nil after a restart, so a dial with an address handed out in the previous period fails with 'missing cert hash') is measured (mgr_restart_prev_address_unconfirmed, dial_prev_period_address_after_restart_failed) and not raised; for one uninterrupted manager the same relation is a hard clause",
+		"the verifier reads the real clock: every generated validity edge is at least 10 minutes away from the real now, so no verdict depends on run timing")
+
+	start := time.Now()
+	var wg sync.WaitGroup
+	part := func(name string, f func(*run.R)) {
+		wg.Add(1)
+		go func() {
+			defer wg.Done()
+			t0 := time.Now()
+			f(r)
+			r.Extra("wall_s_"+name, time.Since(t0).Seconds())
+		}()
+	}
+	if os.Getenv("VERIF_RACE") == "1" {
+		// race pass: the only concurrency is manager goroutine vs getters; run a reduced manager part
+		part("manager", managerCases)
+		wg.Wait()
+		return
+	}
+	part("dial", dialCases)
+	part("verifier", verifierCases)
+	part("manager", managerCases)
+	wg.Wait()
+	_ = start
+
+	// path classes the check exists to exercise
+	r.Require("mgr_rollovers_observed", r.Pick(1000, 10000))
+	r.Require("mgr_restarts", r.Pick(500, 5000))
+	r.Require("mgr_fresh_managers_compared", r.Pick(20000, 200000))
+	r.Require("mgr_tie_instants", 100)
+	r.Require("mgr_retro_next_checks", r.Pick(10000, 100000))
+	r.Require("mgr_retro_confirm_checks", r.Pick(10000, 100000))
+	for _, b := range boundaryNames {
+		r.Require("mgr_start_"+b, 20)
+	}
+	for _, k := range ktNames {
+		r.Require("host_keys_"+k, 5)
+	}
+	r.Require("host_keys_offset_zero", 1)
+	r.Require("host_keys_offset_max", 1)
+	r.Require("host_keys_offset_beyond_period", 1)
+	r.Require("verify_accepted_allowed", 30)
+	r.Require("verify_rejected_pinned_rule_rsa", 50)
+	r.Require("verify_rejected_pinned_rule_lifetime-over-14d", 10)
+	r.Require("verify_rejected_pinned_rule_expired", 10)
+	r.Require("verify_rejected_pinned_rule_not-yet-valid", 10)
+	r.Require("verify_rejected_unpinned_absent", 10)
+	r.Require("verify_rejected_unpinned_digest-under-sha2-512-code", 10)
+	r.Require("verify_rejected_unpinned_empty-list", 10)
+	r.Require("verify_rejected_empty_chain", 10)
+	r.Require("verify_chain2_rejected", 9)
+	r.Require("verify_listener_certificate_accepted", 40)
+	r.Require("dial_completed_allowed", 4)
+	r.Require("dial_refused_unconfirmed", 4)
+	r.Require("dial_refused_unpinned", 2)
+	r.Require("dial_refused_invalid_certificate", 3)
 }
